@@ -49,7 +49,7 @@ var valueNames = []string{"0", "1", "balance-fee", "balance-fee+1", "balance+1"}
 var gasNames = []string{"intrinsic-1", "intrinsic", "intrinsic+30000", "ample", "pool", "pool+1"}
 var nonceNames = []string{"cur-1", "cur", "cur+1"}
 var forkNames = []string{"pre-galaxias", "galaxias"}
-var senderNames = []string{"rich", "poor"}
+var senderNames = []string{"rich", "poor", "collider-code", "collider-nonce"}
 
 // txSpec is one point of the product domain; it is also the replay case.
 type txSpec struct {
@@ -229,7 +229,7 @@ func (s txSpec) build() (*types.Transaction, concrete, bool) {
 	} else {
 		tx = types.NewTransaction(c.nonce, *c.to, c.value, c.gas, c.price, c.data)
 	}
-	signed, err := types.SignTx(signerFor(s.Fork), tx, keys[s.Sender])
+	signed, err := types.SignTx(signerFor(s.Fork), tx, senderKey(s.Sender))
 	if err != nil {
 		panic(fmt.Sprintf("SignTx: %v", err))
 	}
@@ -266,23 +266,25 @@ type finding struct {
 }
 
 type txResult struct {
-	spec     txSpec
-	conc     concrete
-	errStr   string
-	class    string // rejection class, "" when applied
-	status   string // "rejected:<class>" | "ok" | "failed"
-	gasUsed  uint64
-	usedPre  uint64 // gas used before the refund (0 if unknown)
-	refund   uint64
-	capBinds bool
-	exactGas bool // the exact gas figure was checked
-	creates  int  // CREATE/CREATE2 steps whose frame gas accounting was checked
-	burn     *big.Int
-	ops      uint32
-	residue  bool // late rejection left exactly the gas purchase behind (tolerated, see assumptions)
-	poolLeak bool
-	finds    []finding
-	obs      string
+	spec          txSpec
+	conc          concrete
+	errStr        string
+	class         string // rejection class, "" when applied
+	status        string // "rejected:<class>" | "ok" | "failed"
+	gasUsed       uint64
+	usedPre       uint64 // gas used before the refund (0 if unknown)
+	refund        uint64
+	capBinds      bool
+	exactGas      bool // the exact gas figure was checked
+	collision     bool // creation transaction into an occupied address
+	creatorChecks int  // contracts whose nonce advance was compared with their creation steps
+	creates       int  // CREATE/CREATE2 steps whose frame gas accounting was checked
+	burn          *big.Int
+	ops           uint32
+	residue       bool // late rejection left exactly the gas purchase behind (tolerated, see assumptions)
+	poolLeak      bool
+	finds         []finding
+	obs           string
 }
 
 func (r *txResult) fail(oracle, what string) {
@@ -447,7 +449,7 @@ func evalTx(p *preState, spec txSpec, tx *types.Transaction, c concrete) *txResu
 		}
 	}
 	// exact gas figure of the direct factory calls, from the gas schedule (no refunds in these programs)
-	if spec.Target == tFactory && !spec.ViaCal && c.gas >= c.intr {
+	if spec.Target == tFactory && !spec.ViaCal && spec.Fact < nExactFactories && c.gas >= c.intr {
 		want, _ := factoryGas(spec.Fork, spec.Fact, c.gas-c.intr)
 		ok := false
 		for _, u := range want {
@@ -470,6 +472,24 @@ func evalTx(p *preState, spec txSpec, tx *types.Transaction, c concrete) *txResu
 	// nonce
 	if n0, n1 := before.get(sender).Nonce, after.get(sender).Nonce; n1 != n0+1 {
 		r.fail("sender-nonce-plus-one", fmt.Sprintf("sender nonce %d -> %d", n0, n1))
+	}
+	// a contract that performed n creation steps (CREATE/CREATE2 it could afford, in frames that were not reverted) has its
+	// nonce advanced by exactly n, collisions included (checked for contracts that exist before and after)
+	if tr.started && tr.ended {
+		for a, n := range tr.creators {
+			if !before.has(a) || !after.has(a) {
+				continue
+			}
+			r.creatorChecks++
+			if n0, n1 := before.get(a).Nonce, after.get(a).Nonce; n1 != n0+n {
+				r.fail("creator-nonce-advances", fmt.Sprintf("contract %s performed %d creation step(s) but its nonce went %d -> %d", w.nameOf(string(crypto.Keccak256(a[:]))), n, n0, n1))
+			}
+		}
+	}
+	// a creation transaction whose derived address is occupied (measured for the vacuity guards; what the property demands
+	// of it -- executed, so nonce +1, fee paid, nothing else moved -- is demanded by the general oracles)
+	if spec.Target == tCreate && before.has(crypto.CreateAddress(sender, c.nonce)) && r.status == "failed" && !tr.started {
+		r.collision = true
 	}
 	// Expected balance deltas of the parties, summed per account (the parties may alias):
 	//   sender   -(value + gasUsed*price)   (the value comes back when the execution failed, A6)
